@@ -775,6 +775,15 @@ class UniformTime(np.ndarray, TimeInterface):
             return self.at(key)
         elif isinstance(key, Epochs):
             return self.during(key)
+        elif isinstance(key, slice) and self.ndim == 1:
+            # A slice with a step is again uniform; make its attributes
+            # describe the samples it holds, not those of its parent:
+            out = np.ndarray.__getitem__(self, key)
+            start, stop, step = key.indices(len(self))
+            out._set_sampling(
+                int(self.t0) + start * int(self.sampling_interval),
+                int(self.sampling_interval) * step)
+            return out
         else:
             return np.ndarray.__getitem__(self, key)
 
